@@ -18,7 +18,7 @@ from . import common
 
 env.import_redress()
 
-from redress import AsyncPolicy, AsyncRetry, AsyncRetryPolicy, Budget, Classification, ErrorClass, Policy, Retry, RetryExhaustedError, RetryPolicy  # noqa: E402
+from redress import AsyncPolicy, AsyncRetry, AsyncRetryPolicy, Budget, CircuitBreaker, CircuitOpenError, Classification, ErrorClass, Policy, Retry, RetryExhaustedError, RetryPolicy  # noqa: E402
 
 JOBS = {"quick": 4, "thorough": 16}
 G = 1.0 / 64.0
@@ -165,7 +165,13 @@ class Shared:
             if late:
                 pol.budget = self.budget
             if kind == "policy":
-                pol = (AsyncPolicy if p["async"] else Policy)(retry=pol)
+                brk = None
+                if p.get("breaker"):
+                    # the policy also has a circuit breaker, one that trips and recovers well inside the budget's window: what the
+                    # breaker goes through is no business of the budget's
+                    brk = CircuitBreaker(failure_threshold=p["breaker"], window_s=spec["window"], recovery_timeout_s=spec["window"] / 8, trip_on={klass})
+                    ctx.cnt["shared_policies_with_a_breaker"] += 1
+                pol = (AsyncPolicy if p["async"] else Policy)(retry=pol, circuit_breaker=brk)
             self.policies.append(pol)
 
     def metric(self, cid):
@@ -189,6 +195,8 @@ def run_shared(ctx, spec, rng, viol):
                 nops[cid] = nops.get(cid, 0) + 1
                 sh.log.append(("op", world.t, cid, nops[cid]))
                 world.t += dur
+                if calls[cid].get("succeed"):
+                    return "fine"
                 if by_result:
                     return "bad"
                 raise RuntimeError("always failing")
@@ -244,7 +252,7 @@ def run_shared(ctx, spec, rng, viol):
                 sh.cur = cid
                 try:
                     pol.call(mk_op(cid, c["dur"], False, c.get("by_result", False)), on_metric=sh.metric(cid), sleeper=mk_sleeper(cid, False), abort_if=mk_abort(c))
-                except (RuntimeError, RetryExhaustedError, AbortRetryError):
+                except (RuntimeError, RetryExhaustedError, AbortRetryError, CircuitOpenError):
                     pass
             else:
                 pending.append((cid, pol.call(mk_op(cid, c["dur"], True, c.get("by_result", False)), on_metric=sh.metric(cid), sleeper=mk_sleeper(cid, True), abort_if=mk_abort(c))))
@@ -336,7 +344,7 @@ def drain(sh, pending, rng, sched, replay_sched):
         except (RuntimeError, RetryExhaustedError):
             del live[cid]
         except Exception as x:  # noqa: BLE001
-            if type(x).__name__ != "AbortRetryError":
+            if type(x).__name__ not in ("AbortRetryError", "CircuitOpenError"):
                 raise
             del live[cid]
     sh.cur = None
@@ -351,6 +359,13 @@ def gen_shared(rng):
              "kind": rng.choice(["retry", "retry", "rp", "policy"]), "attach": rng.choice(["ctor", "ctor", "attr", "config"]), "deadline": rng.choice([100000.0, 100000.0, w, 2 * w, w / 2]), "strategy_takes": rng.choice([0.0, 0.0, 0.0, G, w / 2, w - G])} for _ in range(npol)]
     calls = [{"policy": rng.randrange(npol), "gap": rng.choice([0.0, 0.0, G, w / 2, w - G, w, w + G]), "dur": rng.choice([0.0, G, w / 4]), "batch": rng.randint(1, 3), "by_result": rng.random() < 0.3,
               "abort_at": rng.randint(0, 6) if rng.random() < 0.25 else None, "early_sleeper": rng.random() < 0.3} for _ in range(rng.randint(3, 10))]
+    for p_ in pols:
+        if p_["kind"] == "policy" and rng.random() < 0.6:
+            p_["breaker"] = rng.randint(1, 2)
+    for c_ in calls:
+        c_["succeed"] = rng.random() < 0.25
+        if rng.random() < 0.3:
+            c_["gap"] = rng.choice([w / 8, w / 8 + G, w / 4])  # around the recovery timeout of a policy's breaker
     return {"max": mx, "window": w, "policies": pols, "calls": calls, "falsy": rng.random() < 0.25}
 
 
